@@ -16,11 +16,39 @@
 //!  8 deserialize  slot k hash_1..hash_k bytes...    -> [1] | ERR     (hashes of the image's items, model only)
 //!  9 reset        slot                              -> []
 //! 10 epsilon      slot                              -> [bits of epsilon()]
+//! 11 parse        slot k hash_1..hash_k bytes...    -> [1] | ERR | ALLOC   (C14: the slot is cleared first; peak
+//!                   allocation of deserialize above 64 * len + 1 MiB gives ALLOC and the value is dropped)
+//! 12 canon        slot                              -> serialize() decoded: [len, pre_longs, ser_ver, family, lg_max, lg_cur,
+//!                   flags, active, weight, offset, item, count, ...] with the pairs sorted by item (layout independent)
+//! An operation addressed to a slot that holds no sketch (e.g. after a rejected image) is a no-op observed
+//! as EMPTY = [-996] (Base/Oracles.v).
 use datasketches::frequencies::{ErrorType, FrequentItemsSketch};
 
 use crate::{fbits, Family, Ob, ERR, PANIC};
 
+const EMPTY: i128 = -996;
+
 type Sk = FrequentItemsSketch<i64>;
+
+/// the image decoded into a layout-independent observation (pairs sorted by item)
+fn canon(b: &[u8]) -> Ob {
+    let mut ob: Ob = vec![b.len() as i128];
+    ob.extend(b.iter().take(6).map(|x| *x as i128));
+    if b.len() < 32 {
+        ob.extend([0, 0, 0]);
+        return ob;
+    }
+    let u64at = |i: usize| u64::from_le_bytes(b[i..i + 8].try_into().unwrap());
+    let n = u32::from_le_bytes(b[8..12].try_into().unwrap()) as usize;
+    ob.extend([n as i128, u64at(16) as i128, u64at(24) as i128]);
+    let mut pairs: Vec<(i64, u64)> = (0..n).map(|i| (u64at(32 + 8 * n + 8 * i) as i64, u64at(32 + 8 * i))).collect();
+    pairs.sort();
+    for (x, c) in pairs {
+        ob.push(x as i128);
+        ob.push(c as i128);
+    }
+    ob
+}
 
 pub struct Fam {
     slots: Vec<Option<Sk>>,
@@ -42,6 +70,15 @@ impl Family for Fam {
     }
 
     fn step(&mut self, code: i64, a: &[i128]) -> Ob {
+        // operations on a slot that holds no sketch
+        let needs = match code {
+            1 | 2 | 3 | 5 | 6 | 7 | 9 | 10 | 12 => vec![a[0]],
+            4 => vec![a[0], a[1]],
+            _ => vec![],
+        };
+        if needs.iter().any(|i| self.slots[*i as usize].is_none()) {
+            return vec![EMPTY];
+        }
         match code {
             0 => {
                 self.slots[a[0] as usize] = Some(Sk::new(a[1] as usize));
@@ -124,6 +161,25 @@ impl Family for Fam {
                 vec![]
             }
             10 => vec![fbits(self.get(a[0]).epsilon())],
+            12 => canon(&self.get(a[0]).serialize()),
+            11 => {
+                let k = a[1] as usize;
+                let bytes: Vec<u8> = a[2 + k..].iter().map(|b| *b as u8).collect();
+                self.slots[a[0] as usize] = None;
+                let base = crate::alloc_mark();
+                let r = Sk::deserialize(&bytes);
+                if crate::alloc_peak_since(base) > 64 * bytes.len() + (1 << 20) {
+                    // out-of-proportion allocation: reported as ALLOC; the value is dropped
+                    return vec![crate::ALLOC];
+                }
+                match r {
+                    Ok(s) => {
+                        self.slots[a[0] as usize] = Some(s);
+                        vec![1]
+                    }
+                    Err(_) => vec![ERR],
+                }
+            }
             _ => vec![PANIC],
         }
     }
